@@ -537,10 +537,11 @@ class RSocketBase(RSocket, RSocketInternal):
 
         stream_id = self._allocate_stream()
         # keep the id in use until the frame was sent: the allocator must not hand it to another request meanwhile
-        self._register_stream(stream_id, _ReservedStreamId(self))
+        reservation = self._register_stream(stream_id, _ReservedStreamId(self))
         frame = to_fire_and_forget_frame(stream_id, payload, self._fragment_size_bytes)
         self.send_request(frame)
-        frame.sent_future.add_done_callback(lambda _: self.finish_stream(stream_id))
+        # release the reservation only: after a reconnect the id may already belong to a request of the new connection
+        frame.sent_future.add_done_callback(lambda _: self._stream_control.finish_stream_of(stream_id, reservation))
         return frame.sent_future
 
     def request_stream(self, payload: Payload) -> Union[BackpressureApi, Publisher]:
